@@ -262,7 +262,7 @@ func RunC10(r *core.Run) {
 	r.Rule = "case = one digit string (length 1..40) placed in every numeric position: CSeq, Content-Length, Expires, plain uint, contact expires (3 carriers), contact q (integer and decimal forms), URI port (10 carriers incl. the user:pass-ambiguous path, numeric passwords and bracketed hosts; plus an exhaustive family where every accepted URI's PortNo must equal its Port text), and a whole message (CSeq + Expires + contact expires), one-shot and with cuts inside the digits; oracle = math/big value of the digit string: success => reported number == value, reported text == digits, value within the documented range; out of range => rejected / saturated (contact expires) / unset and flagged (q); in-range values without excess digits must be accepted; non-trivial = every digit string (each is placed in ~60 parser runs); distinct by construction (the string set is duplicate free)"
 	r.Assume = []string{"documented ranges: CSeq, Expires 2^32-1 (CSeq at most 10 digits); Content-Length <= 2^24 and at most 9 digits; port <= 65535; q in [0,1] with at most 3 decimals; contact expires saturates at 2^32-1"}
 	rr0 := core.NewRand(r.Seed, 0xC10)
-	nums := gen.NumStrings(rr0, int(r.Pick(30000, 1500000)))
+	nums := gen.NumStrings(rr0, int(r.Pick(30000, 6000000)))
 	r.Extra["digit_strings"] = len(nums)
 	st := r.Stage("numbers-in-every-position", int64(len(nums)), func(w *core.Worker, idx int64) {
 		rr := core.NewRand(r.Seed, 0xC10, 1, uint64(idx))
